@@ -150,7 +150,12 @@ fn build_all_tax_year_summaries(
     // Build summaries for each year
     let mut summaries: Vec<TaxYearSummary> = Vec::new();
 
-    for (year, year_matches) in matches_by_year {
+    // Visit the years in order: the first year without an exemption is the one an error names,
+    // and that must not depend on hash iteration order.
+    let mut years: Vec<(u16, Vec<MatchResult>)> = matches_by_year.into_iter().collect();
+    years.sort_by_key(|(year, _)| *year);
+
+    for (year, year_matches) in years {
         let tax_period =
             TaxPeriod::new(year).map_err(|_| CgtError::InvalidDateYear { year: year as i32 })?;
         let disposals = group_matches_into_disposals(year_matches);
